@@ -2226,3 +2226,71 @@ Proof.
   - vm_compute; repeat split; reflexivity.
   - vm_compute; reflexivity.
 Qed.
+
+(* ------------------------------------------------------------ End-of-RIB *)
+(* When an End-of-RIB is due: one is buffered with the initial dump of a session (it leaves
+   with the first flush, right behind the dump); one is scheduled when a queued route-refresh
+   walk has been applied (it leaves last in the next flush); a flush or the end of the session
+   clears both; nothing else touches them. *)
+Section Eor.
+Variable E : Type.
+Variable max : N.
+Variable vis : path -> bool.
+Variable polv : N -> bool -> N -> path -> option E.
+Notation STEP := (step E ByNet false false max (MAXOK max) vis polv).
+
+Definition walk_at_head (n : nbr E) : bool :=
+  match n_chan n with EvWalk _ :: _ => true | _ => false end.
+
+Lemma push_flags : forall c (n : nbr E),
+  n_beor (push E c n) = n_beor n /\ n_eor (push E c n) = n_eor n.
+Proof. intros c n. unfold push. destruct (n_reg n); auto. Qed.
+
+Lemma rib_set_flags : forall (s : state E) x,
+  n_beor (s_nbr (rib_set E s x)) = n_beor (s_nbr s) /\ n_eor (s_nbr (rib_set E s x)) = n_eor (s_nbr s).
+Proof.
+  intros s [[[[net bc] ac] repl] paths]. unfold rib_set.
+  destruct (rset net paths (s_rib s)) as [r' i]. cbn [s_nbr]. apply push_flags.
+Qed.
+
+Lemma rib_sets_flags : forall rs (s : state E),
+  n_beor (s_nbr (fold_left (rib_set E) rs s)) = n_beor (s_nbr s) /\
+  n_eor (s_nbr (fold_left (rib_set E) rs s)) = n_eor (s_nbr s).
+Proof.
+  induction rs as [|x rs IH]; intros s; cbn [fold_left]; auto.
+  destruct (IH (rib_set E s x)) as [H1 H2]. destruct (rib_set_flags s x) as [G1 G2].
+  rewrite H1, H2, G1, G2. auto.
+Qed.
+
+Theorem C01_eor_emission : forall (s : state E) (l : label),
+  let n := s_nbr s in
+  let n' := s_nbr (STEP s l) in
+  match l with
+  | Register => n_beor n' = true /\ n_eor n' = false /\
+                eor_positions n' = [N.of_nat (length (n_buf n'))]
+  | Flush | Unregister => n_beor n' = false /\ n_eor n' = false /\ eor_positions n' = []
+  | Deliver => n_beor n' = n_beor n /\ n_eor n' = (n_eor n || walk_at_head n)
+  | _ => n_beor n' = n_beor n /\ n_eor n' = n_eor n
+  end.
+Proof.
+  intros s l. cbv zeta.
+  destruct l as [net bc ac repl paths | net | net emit_ | src b | src rs | | | | | | v]; cbn [step].
+  - apply rib_set_flags.
+  - destruct (rfind net (s_rib s)); cbn [s_nbr]; auto.
+  - destruct (rfind net (s_rib s)); cbn [s_nbr]; auto. destruct emit_; auto. apply push_flags.
+  - cbn [s_nbr]; auto.
+  - destruct (rib_sets_flags rs {| s_rib := s_rib s; s_llgr := set_llgr src (s_llgr s);
+                                   s_pv := s_pv s; s_nbr := s_nbr s |}) as [H1 H2].
+    cbn [s_nbr] in H1, H2. auto.
+  - unfold walk_at_head. destruct (n_chan (s_nbr s)) as [|[c|cs] rest]; cbn [with_nbr s_nbr n_beor n_eor].
+    + rewrite orb_false_r; auto.
+    + rewrite orb_false_r; auto.
+    + rewrite orb_true_r; auto.
+  - cbn [with_nbr s_nbr n_beor n_eor]. unfold eor_positions. cbn [n_beor n_eor app]. auto.
+  - cbn [with_nbr s_nbr n_beor n_eor]. unfold eor_positions. cbn [n_beor n_eor n_buf app]. auto.
+  - destruct (n_reg (s_nbr s)); cbn [with_nbr s_nbr n_beor n_eor]; auto.
+  - cbn [with_nbr s_nbr nbr0 n_beor n_eor]. unfold eor_positions. cbn [nbr0 n_beor n_eor app]. auto.
+  - cbn [s_nbr]; auto.
+Qed.
+
+End Eor.
